@@ -685,6 +685,14 @@ class Interp:
         fr.env[s.name] = v
 
     def apply_decorator(self, d, v, fr):
+        # @name.setter / @name.getter on an existing property
+        if isinstance(d, ast.Attribute) and d.attr in ('setter', 'getter') \
+                and isinstance(d.value, ast.Name) and \
+                isinstance(fr.env.get(d.value.id), PropertyV):
+            old = fr.env[d.value.id]
+            if d.attr == 'setter':
+                return PropertyV(old.fget, v)
+            return PropertyV(v, old.fset)
         dv = self.eval(d, fr)
         if isinstance(dv, ExtRef):
             if dv.name == 'property':
@@ -842,6 +850,14 @@ class Interp:
         raise Inexact('unpack of %s' % type(v).__name__)
 
     def set_attr(self, base, name, v):
+        if isinstance(base, Obj) and base.cls is not None:
+            member, _owner = base.cls.lookup(name)
+            if isinstance(member, PropertyV):
+                if member.fset is None:
+                    raise self.raise_builtin('AttributeError',
+                                             'property has no setter')
+                self.call(member.fset.bind(base), [v])
+                return
         if isinstance(base, Obj):
             base.fields[name] = v
             self.effect('write', base.label, name, self.termify(v))
